@@ -19,7 +19,10 @@ class Ref:
     self.ybar = y_pre.mean()
     dx = x_pre - self.xbar
     self.sxx = float((dx * dx).sum())
-    self.b = float((dx * (y_pre - self.ybar)).sum()) / self.sxx
+    self.degenerate = self.sxx == 0.0      # constant control: the pinv OLS sets the slope to 0
+    self.b = 0.0 if self.degenerate else float((dx * (y_pre - self.ybar)).sum()) / self.sxx
+    # NB: with a constant control the library's OLS is rank deficient (df = n - 1); callers must not use df /
+    # scale of this object then - only the fitted values (pre-period mean) are meaningful.
     self.a = self.ybar - self.b * self.xbar
     self.resid = y_pre - self.a - self.b * x_pre
     self.df = n - 2
@@ -30,7 +33,8 @@ class Ref:
     self.loc = np.cumsum(self.effect)
     t = np.arange(1, len(x_test) + 1, dtype=float)
     cumdx = np.cumsum(x_test - self.xbar)
-    self.scale = np.sqrt(self.sigma2 * (t * t / n + cumdx * cumdx / self.sxx + t))
+    slope_term = 0.0 if self.degenerate else cumdx * cumdx / self.sxx
+    self.scale = np.sqrt(self.sigma2 * (t * t / n + slope_term + t))
     self.t = t
 
   def ppf(self, p, rescale=1.0):
